@@ -152,7 +152,10 @@ def tensor_key(t):
 def tensor_key_serialized(t):
     """Key of the tensor as it will look after one serialization round trip (leaf level)."""
     from onnx_ir import serde
-    return tensor_key(serde.deserialize_tensor(serde.serialize_tensor(t)))
+    k = tensor_key(serde.deserialize_tensor(serde.serialize_tensor(t)))
+    # the CONTENT is keyed in its serialized form (leaf level, C02/C04); the metadata is what the IR object says
+    # now, so that a serializer re-emitting stale metadata of a proto-backed tensor disagrees with the model
+    return k[:-1] + (tuple(sorted((t.metadata_props or {}).items())),)
 
 
 def attr_key(a, tensor_key_fn=None):
@@ -774,9 +777,9 @@ READINGS (weaker reading taken where the English is ambiguous)
   the pipeline stage (None is not 0), every sharding spec (value through the bijection, device tuple, groups,
   sharded dims with int vs symbolic kept apart).  Reading: BELOW IR 11 device configurations are not part of the
   round trip - the serializer drops the model's and those of the nodes it reaches with the model's IR version
-  (documented, with a warning); no claim is enforced there.  OBSERVED (reported, not enforced): at IR < 11 the nodes
-  of SUBGRAPHS keep their device configurations in the proto because serialize_attribute_into ->
-  serialize_graph_into does not pass model_ir_version down, unlike the nodes of the main graph and of functions.
+  (documented, with a warning); no claim is enforced there.  OBSERVED (reported; fixed in /repo by 5e4600e): at
+  IR < 11 the nodes of SUBGRAPHS kept their device configurations in the proto because serialize_attribute_into ->
+  serialize_graph_into did not pass model_ir_version down, unlike the nodes of the main graph and of functions.
   States outside the hypothesis (py_serializable conditions device-*, only at IR >= 11): a node configuration
   referencing a configuration object that is not registered on the model (dangling after a non-cascading remove;
   it reads back as a placeholder with num_devices=0), a sharding spec without a named value or on a value that is
@@ -820,6 +823,18 @@ MUTANTS (scratch worktree of /repo at 3fc58a7, quick tier, seed 0; every one rep
   m6 value_info also emitted for initializers that are graph inputs  -> agree_ser only (same remark)
   m7 serialize_node_into names an unnamed node (mutates the IR)      -> agree_ser + agree_after_ser; oracle side-effect:n.name
   m8 node doc_string dropped when the node has metadata    -> agree_ser + agree_roundtrip; oracle iso:doc (5-op replay)
+PROTO-BACKED MODELS AND METADATA EDITS.  Recipe op `reload`: model := from_proto(to_proto(model)) - every tensor
+  becomes a TensorProtoTensor / proto-backed object and the handles follow the objects through the bijection of
+  IsoCheck; emitted right after construction for ~30% of the cases and as an edit.  Edit ops `meta_edit` (clear /
+  pop / overwrite / update / add on metadata_props of tensors - initializer and attribute tensors,
+  TensorProtoTensor included - values, nodes, graphs, functions, model; targets with non-empty metadata preferred,
+  so "emptied after having been non-empty" is frequent) and `tensor_doc`.  PART 1: tensor_key_serialized keys the
+  CONTENT of a tensor in serialized form but takes the METADATA from the IR object (it used to come out of the
+  serializer under test, which made the model agree with a serializer that re-emits stale proto metadata).
+SEEDED CHANGES round 2: C03-r2m2 (stale metadata_props of a proto-backed tensor re-emitted after
+  metadata_props.clear()) was not detected before `reload` / `meta_edit` existed; now agree_ser + agree_roundtrip and
+  the oracle ("iso:const ... metadata differ", "iso:attr-tensor ... metadata differ", 6-op replay: tensor, value,
+  graph, model, reload, meta_edit).  C03-r2m1, C03-r2m3 and the round-1 m1/m2/m3 are still detected with input.
 SEEDED CHANGES (/verif/seeded, tools/seed_eval.py): C03-m1, C03-m2 detected with a concrete replay; C03-m3
   (pipeline_stage written only when truthy: stage 0 reads back as None) was NOT detected before device
   configurations were generated; now detected by agree_ser + agree_roundtrip and by the oracle
@@ -991,6 +1006,50 @@ def mk_node_devcfgs(env: Env, cfgs) -> tuple:
     return tuple(out)
 
 
+def _meta_target(env: Env, kind: str, h):
+    if kind == "m":
+        if env.model is None:
+            raise _Missing("model")
+        return env.model
+    d = {"v": env.v, "n": env.n, "g": env.g, "t": env.t, "f": env.f}[kind]
+    if h not in d:
+        raise _Missing(h)
+    return d[h]
+
+
+def _reload(env: Env) -> None:
+    """model := from_proto(to_proto(model)): everything becomes proto-backed (TensorProtoTensor, ...); the
+    handles follow the objects through the correspondence built by IsoCheck (unmatched handles disappear)."""
+    import onnx_ir as ir
+    if env.model is None:
+        raise _Missing("model")
+    old = env.model
+    new = ir.from_proto(ir.to_proto(old))
+    iso = IsoCheck(old, new)
+    tm = {}
+    for a, b, _ in iso.vpairs:
+        if a.const_value is not None and b.const_value is not None:
+            tm[id(a.const_value)] = b.const_value
+    T = ir.AttributeType
+    for a, b, _ in iso.npairs:
+        for key, x in a.attributes.items():
+            y = b.attributes.get(key)
+            if y is None or x.is_ref() or y.is_ref() or x.type != y.type:
+                continue
+            if x.type == T.TENSOR:
+                tm[id(x.value)] = y.value
+            elif x.type == T.TENSORS:
+                tm.update({id(p): q for p, q in zip(x.value, y.value)})
+    env.v = {h: iso.vm[id(o)] for h, o in env.v.items() if id(o) in iso.vm}
+    env.n = {h: iso.nm[id(o)] for h, o in env.n.items() if id(o) in iso.nm}
+    env.g = {h: iso.gm[id(o)] for h, o in env.g.items() if id(o) in iso.gm}
+    env.t = {h: tm[id(o)] for h, o in env.t.items() if id(o) in tm}
+    env.c = {h: iso.cm[id(o)] for h, o in env.c.items() if id(o) in iso.cm}
+    fmap = {id(x): y for x, y in zip(old.functions.values(), new.functions.values())}
+    env.f = {h: fmap[id(o)] for h, o in env.f.items() if id(o) in fmap}
+    env.model = new
+
+
 def apply_op(env: Env, op: dict) -> str:
     """Apply one recipe op through the public API.  'ok' | 'skip' (handle missing) | 'reject:<Exc>'."""
     try:
@@ -1156,6 +1215,21 @@ def _apply(env: Env, op: dict) -> None:
         env.N(op["n"]).set_pipeline_stage(env.C(op["c"]), op["stage"])
     elif k == "node_devcfg":
         env.N(op["n"]).device_configurations = mk_node_devcfgs(env, op["cfgs"])
+    elif k == "reload":
+        _reload(env)
+    elif k == "meta_edit":
+        obj = _meta_target(env, op["kind"], op.get("h"))
+        d = obj.metadata_props
+        if op["action"] == "clear":
+            d.clear()
+        elif op["action"] == "pop":
+            d.pop(op["key"] if "key" in op else next(reversed(list(d))))
+        elif op["action"] == "update":
+            d.update(op["items"])
+        else:
+            d[op["key"]] = op["val"]
+    elif k == "tensor_doc":
+        env.T(op["t"]).doc_string = op["doc"]
     elif k == "func_set":
         if op["f"] not in env.f:
             raise _Missing(op["f"])
@@ -1169,7 +1243,7 @@ EDIT_OPS = {"append", "extend", "insert_before", "insert_after", "remove", "move
             "set_type", "set_shape", "set_dtype", "set_doc", "set_meta", "set_const", "gin_append", "gout_append",
             "gin_pop", "gout_pop", "gin_insert", "gout_insert", "gin_set", "gout_set", "init_set", "init_register",
             "init_pop", "graph_set", "graph_meta", "opset", "model_set", "model_meta", "func_set",
-            "devcfg_add", "devcfg_remove", "shard", "set_stage", "node_devcfg"}
+            "devcfg_add", "devcfg_remove", "shard", "set_stage", "node_devcfg", "reload", "meta_edit", "tensor_doc"}
 
 
 def build(recipe: dict):
@@ -1212,6 +1286,7 @@ class Gen:
     def emit(self, op: dict) -> str:
         st = apply_op(self.env, op)
         self.ops.append(op)
+        self.hv, self.hn = {}, {}           # rebuilt every time: `reload` replaces all objects (ids may be reused)
         for hh, v in self.env.v.items():
             self.hv.setdefault(id(v), hh)
         for hh, n in self.env.n.items():
@@ -1285,8 +1360,8 @@ class Gen:
                 op["raw"] = r.random() < 0.6
         if r.random() < 0.1:
             op["doc"] = "tdoc"
-        if r.random() < 0.1:
-            op["meta"] = {"tk": "tv"}
+        if r.random() < 0.3:
+            op["meta"] = {"tk": "tv"} if r.random() < 0.6 else {"tk": "tv", "source": "ckpt"}
         self.emit(op)
         return tid
 
@@ -1550,6 +1625,36 @@ class Gen:
                 self.emit(dict(self.devcfg_fields(), op="devcfg_add"))
             for _ in range(r.randrange(1, 6)):
                 self.gen_shard()
+        if r.random() < 0.3:
+            self.emit({"op": "reload"})          # the edit history starts from a proto-backed model
+
+    # ---- metadata / doc string edits (clear / pop / overwrite / add), on every carrier
+    def gen_meta_edit(self) -> None:
+        r = self.rng
+        env = self.env
+        kind = r.choice(["t", "t", "t", "t", "v", "v", "n", "g", "f", "m"])
+        pool = {"t": env.t, "v": env.v, "n": env.n, "g": env.g, "f": env.f, "m": {None: env.model}}[kind]
+        hs = sorted(pool, key=str)
+        if not hs:
+            return
+        full = [h for h in hs if pool[h].metadata_props]
+        h = r.choice(full) if full and r.random() < 0.75 else r.choice(hs)
+        d = pool[h].metadata_props
+        q = r.random()
+        op = {"op": "meta_edit", "kind": kind, "h": h}
+        if d and q < 0.4:
+            op["action"] = "clear"                        # emptied after having been non-empty
+        elif d and q < 0.65:
+            op.update(action="pop", key=r.choice(sorted(d)))
+        elif d and q < 0.8:
+            op.update(action="set", key=r.choice(sorted(d)), val=r.choice(["overwritten", ""]))
+        elif q < 0.9:
+            op.update(action="update", items={"added": "1", "zz": "2"})
+        else:
+            op.update(action="set", key=r.choice(["new", "tk"]), val="nv")
+        self.emit(op)
+        if kind == "t" and r.random() < 0.15:
+            self.emit({"op": "tensor_doc", "t": h, "doc": r.choice(["edited tdoc", "", None])})
 
     # ---- multi-device
     def devcfg_fields(self) -> dict:
@@ -1616,7 +1721,8 @@ class Gen:
                  ("gout_insert", 1), ("init_set", 3), ("init_register", 2), ("init_pop", 2), ("set_const", 2),
                  ("node_set", 4), ("node_meta", 1), ("attr_add", 3), ("attr_pop", 1), ("graph_set", 2),
                  ("graph_meta", 1), ("opset", 1), ("model_set", 1), ("model_meta", 1), ("func_set", 1),
-                 ("shard", 4), ("devcfg_remove", 3), ("devcfg_add", 1), ("replace_sharded_input", 3)]
+                 ("shard", 4), ("devcfg_remove", 3), ("devcfg_add", 1), ("replace_sharded_input", 3),
+                 ("meta_edit", 14), ("reload", 2)]
         k = r.choices([x for x, _ in kinds], [w for _, w in kinds])[0]
         gid = self.pick_graph()
         g = self.env.g[gid]
@@ -1774,6 +1880,10 @@ class Gen:
             self.emit({"op": "model_set", "field": field, "val": val})
         elif k == "model_meta":
             self.emit({"op": "model_meta", "key": "mk2", "val": "mv2"})
+        elif k == "reload":
+            self.emit({"op": "reload"})
+        elif k == "meta_edit":
+            self.gen_meta_edit()
         elif k == "shard":
             self.gen_shard()
         elif k == "devcfg_add" and (self.env.c or wild) and self.env.model.ir_version >= 10:
